@@ -378,6 +378,8 @@ func TestPropConverge(t *testing.T) {
 		var d string
 		var da, db map[string]fix.E
 		stable := 0
+		lastDiff := ""
+		linkUpAt := time.Now()
 		deadline = time.Now().Add(25 * time.Second)
 		for {
 			var errA, errB error
@@ -394,8 +396,14 @@ func TestPropConverge(t *testing.T) {
 			if stable >= 2 {
 				break
 			}
+			// as long as the difference keeps changing the two sides are still
+			// synchronising (slow machine); 25 s without any change is a verdict
+			if d != lastDiff && time.Since(linkUpAt) < 150*time.Second {
+				lastDiff = d
+				deadline = time.Now().Add(25 * time.Second)
+			}
 			if time.Now().After(deadline) {
-				t.Fatalf("no convergence within 25 s of the link coming up: %s\nhistory: %v", d, hist)
+				t.Fatalf("no convergence: the difference has not changed for 25 s with the link up: %s\nhistory: %v", d, hist)
 			}
 			time.Sleep(600 * time.Millisecond)
 		}
